@@ -91,11 +91,15 @@ def export_mir(crate_name, lib_rs, features, profile='dev', extra_stop=()):
     cdir = os.path.join(WORK, 'crates', f'{crate_name}-{cfg}')
     os.makedirs(os.path.join(cdir, 'src'), exist_ok=True)
     feats = ', '.join(f'"{f}"' for f in features)
+    # the package is named after the crate directory (the library stays `corpus`): crate directories share one target
+    # directory per configuration, and cargo keys the fingerprint of a workspace-root path package by package name, so
+    # with one name for all of them a concurrent check's build could make this one look fresh (no MIR written)
     write_if_changed(os.path.join(cdir, 'Cargo.toml'), f'''[package]
-name = "corpus"
+name = "corpus-{crate_name}"
 version = "0.0.0"
 edition = "2021"
 [lib]
+name = "corpus"
 path = "src/lib.rs"
 [dependencies]
 logos = {{ path = "{REPO}", features = [{feats}] }}
